@@ -1300,7 +1300,13 @@ class FlippedInterface:
         """
         if (name in self.__unflipped.signature.members and
                 self.__unflipped.signature.members[name].is_signature):
-            return flipped(getattr(self.__unflipped, name))
+            # A signature member with dimensions is a (possibly nested) list of interface objects.
+            def flip_dimensions(value, dimensions):
+                if not dimensions:
+                    return flipped(value)
+                return [flip_dimensions(item, dimensions[1:]) for item in value]
+            return flip_dimensions(getattr(self.__unflipped, name),
+                                   self.__unflipped.signature.members[name].dimensions)
         else:
             try: # descriptor first
                 return _gettypeattr(self.__unflipped, name).__get__(self, type(self.__unflipped))
